@@ -165,10 +165,10 @@ const std::vector<OpSchema>& dl_schema()
     return s;
 }
 
-constexpr int NDL = 4, NSYM = 6, NHOLD = 2, NVAR = 4, NVAL = 8;
+constexpr int NDL = 4, NSYM = 6, NHOLD = 2, NVAR = 4, NVAL = 10;
 const char* const VARS[NVAR] = { "NITRO_DLSIM_A", "NITRO_DLSIM_B_long_name_with.dots", "NITRO_DLSIM\x01\xfe", "N" };
 const std::string LONG_VALUE(5000, 'L'); // longer than any fixed buffer one might be tempted to use
-const char* const VALS[NVAL] = { "", "v", "a=b", "  spaced  ", "-dash", "\xc3\xa4\xff\x01", "x;y;z", LONG_VALUE.c_str() };
+const char* const VALS[NVAL] = { "", "v", "a=b", "  spaced  ", "-dash", "\xc3\xa4\xff\x01", "x;y;z", LONG_VALUE.c_str(), "ends with newline\n", "\r\n" };
 const char* const DFLTS[3] = { "", "dflt", "0" };
 
 using Sym = nitro::dl::symbol<int(int)>;
